@@ -119,3 +119,4 @@ Proof.
 Qed.
 
 End DictTotal.
+
